@@ -70,8 +70,8 @@ func runShared(cs SharedCase) ev.Outcome {
 		col.Note("shared: P_run does not compile: %s%s\n%s", pr.err, pr.panic, prun)
 		return ev.Outcome{Skip: "P_run does not compile"}
 	}
-	sig := fmt.Sprintf("shared/%s-%s,%s-%s/%s/%s", cs.Kind1, widthClass(cs.Bits1),
-		cs.Kind2, widthClass(cs.Bits2), coarseSign(cs.V, cs.Kind1, cs.Bits1), consName(cs.Cons))
+	sig := fmt.Sprintf("shared/%s,%s/%s", widthClass(cs.Bits1), widthClass(cs.Bits2),
+		coarseSign(cs.V, cs.Kind1, cs.Bits1))
 	pc := compile(pconst)
 	if pc.panic != "" {
 		return ev.Fail("foldpanic/"+panicSite(pc.panic)+"/shared", "compiler panics: %s\n%s", pc.panic, pconst)
